@@ -86,7 +86,45 @@ class Ed(xitorch.EditableModule):
         return [prefix + "a1", prefix + "a2", prefix + "b2", prefix + "lst[0]", prefix + "lst[1]", prefix + "dct['k']"]
 
 
+class InnerNet(torch.nn.Module):
+    def __init__(self, a, frozen, b):
+        super().__init__()
+        self.a = torch.nn.Parameter(a)
+        self.frozen = torch.nn.Parameter(frozen, requires_grad=False)   # frozen parameter after a trainable one
+        self.b = torch.nn.Parameter(b)
+
+
+class EdNN(xitorch.EditableModule):
+    """an nn.Module held by an EditableModule whose getparamnames lists the module's parameters"""
+    def __init__(self, ctr, a, frozen, b):
+        self.ctr = ctr
+        self.module = InnerNet(a, frozen, b)
+
+    def forward(self, y, *extra):
+        self.ctr.tick()
+        m = self.module
+        return m.a * y * y * 0.1 + m.b * y * 0.3 - m.frozen
+
+    def scalar(self, y, *extra):
+        self.ctr.tick()
+        m = self.module
+        return (m.a * y * y * y * 0.1 + m.b * y * y * 0.3 + m.frozen * y).sum()
+
+    def rhs(self, t, y, *extra):
+        self.ctr.tick()
+        m = self.module
+        return -m.a * y + m.b * 0.1 + m.frozen * t * 0
+
+    def getparamnames(self, methodname, prefix=""):
+        return [name for name, _ in self.module.named_parameters(prefix=prefix + "module")]
+
+
 def snapshot(obj):
+    if isinstance(obj, EdNN):
+        m = obj.module
+        return {"module": id(m), "names": [n for n, _ in m.named_parameters()], "ids": [id(p) for _, p in m.named_parameters()],
+                "types": [type(p).__name__ for _, p in m.named_parameters()],
+                "attrs": [id(getattr(m, n)) for n in ("a", "frozen", "b")], "state_dict": list(m.state_dict().keys())}
     if isinstance(obj, torch.nn.Module):
         return {"names": [n for n, _ in obj.named_parameters()],
                 "ids": [id(p) for _, p in obj.named_parameters()],
@@ -108,6 +146,8 @@ def _make(kind, cx, ctr):
     fz = cx.const(torch.tensor([0.25], dtype=torch.float64))
     if kind == "nn":
         return NN(ctr, a, fz, b)
+    if kind == "editable_nn":
+        return EdNN(ctr, a, fz, b)
     return Ed(ctr, a, b)
 
 
@@ -134,7 +174,10 @@ def _use(functional, obj, cx):
         y = op.mv(one) + op.rmv(one)
     else:
         raise KeyError(functional)
-    leaves = [p for p in (obj.parameters() if isinstance(obj, torch.nn.Module) else [obj.a1, obj.b2]) if p.requires_grad]
+    if isinstance(obj, EdNN):
+        leaves = [p for p in obj.module.parameters() if p.requires_grad]
+    else:
+        leaves = [p for p in (obj.parameters() if isinstance(obj, torch.nn.Module) else [obj.a1, obj.b2]) if p.requires_grad]
     import warnings
     g = torch.autograd.grad(y.sum(), leaves, create_graph=True, allow_unused=True)
     g = [x for x in g if x is not None and x.requires_grad]
@@ -157,30 +200,32 @@ def crash(cx, functional="rootfinder", kind="nn", debug=False):
         total = ctr.n
         cx.claim_true("state unchanged after a complete run", snapshot(obj) == before, detail="%s -> %s" % (before, snapshot(obj)))
         cx.claim_true("debug flag unchanged after a complete run", is_debug_enabled() == debug)
-        # crash at evaluation k (k = 1..total), chosen by the explorer
-        k = cx.choose(total, "crash_at") + 1
-        ctr2 = Counter()
-        ctr2.k = k
-        obj2 = _make(kind, cx, ctr2)
-        before2 = snapshot(obj2)
-        raised = False
-        with warnings.catch_warnings():
-            warnings.simplefilter("ignore")
-            try:
-                _use(functional, obj2, cx)
-            except Boom:
-                raised = True
-        cx.claim_true("the injected failure propagates to the caller", raised, detail="k=%d of %d" % (k, total))
-        cx.claim_true("state unchanged after a failure", snapshot(obj2) == before2,
-                      detail="k=%d of %d: %s -> %s" % (k, total, before2, snapshot(obj2)))
-        cx.claim_true("debug flag unchanged after a failure", is_debug_enabled() == debug)
-        # the object is still usable and gives the same value as a fresh one
-        ctr2.k = None
-        with warnings.catch_warnings():
-            warnings.simplefilter("ignore")
-            yA = _use(functional, obj2, cx)
-            yB = _use(functional, _make(kind, cx, Counter()), cx)
-        cx.claim_eq("the object still computes the same result after the failure", yA.detach(), yB.detach())
+        # crash at evaluation k (k = 1..total), chosen by the explorer (debug mode is exercised on the real code only, where
+        # every k is run in turn)
+        ks = list(range(1, total + 1)) if debug else [cx.choose(total, "crash_at") + 1]
+        for k in ks:
+            ctr2 = Counter()
+            ctr2.k = k
+            obj2 = _make(kind, cx, ctr2)
+            before2 = snapshot(obj2)
+            raised = False
+            with warnings.catch_warnings():
+                warnings.simplefilter("ignore")
+                try:
+                    _use(functional, obj2, cx)
+                except Boom:
+                    raised = True
+            cx.claim_true("the injected failure propagates to the caller", raised, detail="k=%d of %d" % (k, total))
+            cx.claim_true("state unchanged after a failure", snapshot(obj2) == before2,
+                          detail="k=%d of %d: %s -> %s" % (k, total, before2, snapshot(obj2)))
+            cx.claim_true("debug flag unchanged after a failure", is_debug_enabled() == debug)
+            # the object is still usable and gives the same value as a fresh one
+            ctr2.k = None
+            with warnings.catch_warnings():
+                warnings.simplefilter("ignore")
+                yA = _use(functional, obj2, cx)
+                yB = _use(functional, _make(kind, cx, Counter()), cx)
+            cx.claim_eq("the object still computes the same result after the failure", yA.detach(), yB.detach())
         return "crash@%d/%d" % (k, total)
     finally:
         set_debug_mode(prev_debug)
@@ -358,9 +403,15 @@ def configs(tier):
     for fn in ("rootfinder", "equilibrium", "minimize", "solve_ivp", "quad", "mcquad", "jac"):
         for kind in ("nn", "editable"):
             add("crash/%s/%s" % (fn, kind), crash, functional=fn, kind=kind)
+    for fn in ("rootfinder", "solve_ivp", "quad", "mcquad", "jac"):
+        add("crash/%s/editable_nn" % fn, crash, functional=fn, kind="editable_nn")
     # debug mode runs randomised self-checks: exercised on the real code only (seeded crash points)
     add("aux_real_only/crash/rootfinder/nn/debug_on", crash, functional="rootfinder", kind="nn", debug=True,
         opts={"real_only": True, "validate": 6})
+    add("aux_real_only/crash/rootfinder/editable/debug_on", crash, functional="rootfinder", kind="editable", debug=True,
+        opts={"real_only": True, "validate": 8})
+    add("aux_real_only/crash/quad/editable/debug_on", crash, functional="quad", kind="editable", debug=True,
+        opts={"real_only": True, "validate": 8})
     for n in ((3, 4, 5) if tier == "quick" else (3, 4, 5, 6)):
         add("unique_params/n%d" % n, unique_params, n=n, opts={"max_paths": 1000, "max_decisions": 400, "budget_s": 900})
     add("debug_contexts/quad/editable", debug_contexts, functional="quad", kind="editable", opts={"max_paths": 400})
